@@ -81,8 +81,11 @@ func c10DDLPath(info *meta.TaskInfo, db, coll string) bool {
 }
 
 // VerifC10_DeepHistory: longer create/delete histories over four concrete specification
-// shapes (a.c, a.*, *.c, *.*), then the symbolic probe and the bookkeeping conditions.
+// shapes (a.b, a.*, *.b, *.*), then the symbolic probe and the bookkeeping conditions.
 func VerifC10_DeepHistory() { VerifC10_History() }
+
+// VerifC10_DeepHistorySymbolicProbe: the deep histories with a symbolic probe (thorough tier)
+func VerifC10_DeepHistorySymbolicProbe() { VerifC10_History() }
 
 // VerifC10_History: K create/delete requests on one target, then a symbolic probe.
 func VerifC10_History() {
@@ -113,8 +116,9 @@ func VerifC10_History() {
 		var sp *c10Spec
 		useDBForm := true
 		if vParam("MENU", 0) == 1 {
-			// deep histories: the specification is one of four concrete shapes, no faults
-			sp = &c10Spec{db: []string{"a", "*"}[vChoice("menu.db", 2)], coll: []string{"c", "*"}[vChoice("menu.coll", 2)]}
+			// deep histories: the specification is one of four concrete shapes (a.b, a.*, *.b, *.* - the
+			// names lie inside the probe's alphabet), no faults
+			sp = &c10Spec{db: []string{"a", "*"}[vChoice("menu.db", 2)], coll: []string{"b", "*"}[vChoice("menu.coll", 2)]}
 			sp.noAuto = menuNoAuto
 			c10StartFails, f.faults = false, false
 		} else {
@@ -150,8 +154,49 @@ func VerifC10_History() {
 		specs = append(specs, sp)
 	}
 	// ---- probe ----
-	pdb, pcoll := c10Name("probe.db", L), c10Name("probe.coll", L)
-	vAssume(vAnd(pdb != "*", pcoll != "*"))
+	type probe struct{ db, coll string }
+	var probes []probe
+	if vParam("MENU", 0) == 1 && vParam("PROBE", 0) == 1 {
+		// deep histories over the concrete menu: the probes are the four classes of source
+		// collections the menu's names distinguish (named db / other db x named collection / other),
+		// all of them examined on every history
+		probes = []probe{{"a", "b"}, {"a", "a"}, {"b", "b"}, {"b", "a"}}
+	} else {
+		pdb, pcoll := c10Name("probe.db", L), c10Name("probe.coll", L)
+		vAssume(vAnd(pdb != "*", pcoll != "*"))
+		probes = []probe{{pdb, pcoll}}
+	}
+	for _, pr := range probes {
+		c10Probe(cdc, specs, pr.db, pr.coll)
+	}
+	vAssert(len(cdc.cdcTasks.data) == c10Live(specs), "C10.registered-tasks-are-the-accepted-live-ones")
+	// bookkeeping equals what the live tasks imply
+	var wantData []string
+	for _, sp := range specs {
+		if sp.live {
+			wantData = append(wantData, util.GetFullCollectionName(sp.coll, sp.db))
+		}
+	}
+	vAssert(c10SameMultiset(cdc.collectionNames.data[uKey], wantData), "C10.names-bookkeeping-equals-live-tasks")
+	var wantExcl []string
+	for _, sp := range specs {
+		if sp.live {
+			wantExcl = append(wantExcl, cdc.cdcTasks.data[sp.taskID].ExcludeCollections...)
+		}
+	}
+	vAssert(c10SameSet(cdc.collectionNames.excludeData[uKey], wantExcl), "C10.exclude-bookkeeping-equals-live-tasks")
+	// restart: a fresh server reloads the persisted tasks and rebuilds the same bookkeeping
+	cdc2 := sNewCDC(f)
+	c10StartFails = false
+	cdc2.ReloadTask()
+	vAssert(c10SameMultiset(cdc2.collectionNames.data[uKey], wantData), "C10.reload-rebuilds-names")
+	vAssert(c10SameSet(cdc2.collectionNames.excludeData[uKey], wantExcl), "C10.reload-rebuilds-excludes")
+	vReach("end")
+}
+
+
+// c10Probe: the selection conditions for one source collection (pdb, pcoll)
+func c10Probe(cdc *MetaCDC, specs []*c10Spec, pdb, pcoll string) {
 	owners := 0
 	for _, sp := range specs {
 		if !sp.live {
@@ -189,29 +234,6 @@ func VerifC10_History() {
 	}
 	vKnown("C10-partial-wildcard-overlap", partial)
 	vAssert(owners <= 1, "C10.at-most-one-task-selects-a-collection")
-	vAssert(len(cdc.cdcTasks.data) == c10Live(specs), "C10.registered-tasks-are-the-accepted-live-ones")
-	// bookkeeping equals what the live tasks imply
-	var wantData []string
-	for _, sp := range specs {
-		if sp.live {
-			wantData = append(wantData, util.GetFullCollectionName(sp.coll, sp.db))
-		}
-	}
-	vAssert(c10SameMultiset(cdc.collectionNames.data[uKey], wantData), "C10.names-bookkeeping-equals-live-tasks")
-	var wantExcl []string
-	for _, sp := range specs {
-		if sp.live {
-			wantExcl = append(wantExcl, cdc.cdcTasks.data[sp.taskID].ExcludeCollections...)
-		}
-	}
-	vAssert(c10SameSet(cdc.collectionNames.excludeData[uKey], wantExcl), "C10.exclude-bookkeeping-equals-live-tasks")
-	// restart: a fresh server reloads the persisted tasks and rebuilds the same bookkeeping
-	cdc2 := sNewCDC(f)
-	c10StartFails = false
-	cdc2.ReloadTask()
-	vAssert(c10SameMultiset(cdc2.collectionNames.data[uKey], wantData), "C10.reload-rebuilds-names")
-	vAssert(c10SameSet(cdc2.collectionNames.excludeData[uKey], wantExcl), "C10.reload-rebuilds-excludes")
-	vReach("end")
 }
 
 func c10SameList(a, b []string) bool {
